@@ -38,7 +38,9 @@ func exoticProbes(h ir.Header) []hprobe {
 	if h.Type == "" || h.Type == "string" {
 		switch h.Format {
 		case "uuid":
-			ps = append(ps, hprobe{"uuid_non_hex", "zzzzzzzz-zzzz-zzzz-zzzz-zzzzzzzzzzzz"}, hprobe{"uuid_upper", "123E4567-E89B-42D3-A456-426614174000"})
+			ps = append(ps, hprobe{"uuid_non_hex", "zzzzzzzz-zzzz-zzzz-zzzz-zzzzzzzzzzzz"}, hprobe{"uuid_upper", "123E4567-E89B-42D3-A456-426614174000"},
+				hprobe{"uuid_braces", "{123e4567-e89b-42d3-a456-426614174000}"}, hprobe{"uuid_version_nibble", "123e4567-e89b-92d3-f456-426614174000"},
+				hprobe{"uuid_no_dashes", "123e4567e89b42d3a456426614174000"}, hprobe{"uuid_one_non_hex", "123e4567-e89b-42d3-a456-42661417400g"})
 		case "email":
 			ps = append(ps, hprobe{"email_dotless_domain", "a@b"}, hprobe{"email_with_space", "a b@c.de"})
 		case "date-time":
